@@ -83,6 +83,7 @@ type Sched struct {
 	Deadlock bool   // set when the execution ended with unfinished threads and nothing to run
 	Dump     string // goroutine dump on deadlock
 	Diverged string // set when a replayed prefix could not be followed
+	Panics   []string // panics raised (and recovered) in harness threads
 	// AfterStep, if set, is called by the scheduler goroutine after each step reached quiescence
 	// (used for per-step invariants).  It runs with the hook bypassed.
 	AfterStep func(s *Sched)
@@ -182,7 +183,16 @@ func (s *Sched) Run(threads []Thread) {
 			ready <- goid()
 			<-start
 			s.Point("start")
-			th.Body()
+			func() {
+				defer func() {
+					if r := recover(); r != nil {
+						s.mu.Lock()
+						s.Panics = append(s.Panics, fmt.Sprintf("thread %s: panic: %v\n%s", th.Name, r, shortStack()))
+						s.mu.Unlock()
+					}
+				}()
+				th.Body()
+			}()
 			s.mu.Lock()
 			s.done[i] = true
 			s.mu.Unlock()
@@ -283,6 +293,12 @@ func (s *Sched) loop() {
 			return
 		}
 	}
+}
+
+func shortStack() string {
+	buf := make([]byte, 4096)
+	n := runtime.Stack(buf, false)
+	return string(buf[:n])
 }
 
 func allStacks() string {
